@@ -236,7 +236,7 @@ class Rewriter:
         t = s('Rn.numlim', r'\(std::numeric_limits<\s*(\w+)\s*>::max\)\s*\(\)', r'VF_NUMLIM_MAX_\1', t)
         t = s('Rn.numlim', r'\bstd::numeric_limits<\s*(\w+)\s*>::(max|lowest|min)\s*\(\)', r'VF_NUMLIM_\2_\1', t)
         t = s('Rn.isintegral', r'\bif\s+__auto_type\b', 'if', t)
-        t = s('Rn.cmath', r'\bstd::(round|sqrt|fabs|ceil|floor|nearbyint|pow|log10|ilogb|sin|cos|acos|atan2|isnan|move|swap)\b', r'\1', t)
+        t = s('Rn.cmath', r'\bstd::(llabs|round|sqrt|fabs|ceil|floor|nearbyint|pow|log10|ilogb|sin|cos|acos|atan2|isnan|move|swap)\b', r'\1', t)
         t = s('Rn.sizet', r'\bstd::size_t\b', 'size_t', t)
         return t
 
@@ -432,3 +432,23 @@ def extract_struct(src, name, cppdefs=()):
         fields.append(st + ';')
     text = 'struct %s {\n  %s\n};' % (name, '\n  '.join(fields))
     return text, names, src.count('\n', 0, m.start()) + 1
+
+
+def extract_const(src, name, cppdefs=()):
+    """`[static] const T NAME = VALUE;` at namespace scope -> (#define NAME (VALUE), line)."""
+    pat = re.compile(r'(?:static\s+)?const(?:expr)?\s+([\w:]+)\s+' + re.escape(name) + r'\s*=\s*([^;]+);')
+    ms = list(pat.finditer(src))
+    if not ms:
+        raise ExtractError('const %s not found' % name)
+    if len(ms) > 1:
+        lo = src.rfind('\n#if', 0, ms[0].start())
+        hi = src.find('#endif', ms[-1].end())
+        seg, _ = run_cpp(src[lo + 1:hi + 6], list(cppdefs))
+        ms2 = list(pat.finditer(seg))
+        if len(ms2) != 1:
+            raise ExtractError('const %s ambiguous' % name)
+        val = ms2[0].group(2)
+    else:
+        val = ms[0].group(2)
+    val = re.sub(r'static_cast<\s*(\w+)\s*>\s*\(', r'(\1)(', val)
+    return '#define %s (%s)' % (name, val.strip()), src.count('\n', 0, ms[0].start()) + 1
